@@ -87,6 +87,11 @@ func Add(t *tspb.Timestamp, d *durpb.Duration) *tspb.Timestamp {
 		t2.Nanos += second
 		t2.Seconds--
 	}
+	if t2.Nanos < 0 {
+		// a negative nanos sum borrows one second, so that the result stays normalised
+		t2.Nanos += second
+		t2.Seconds--
+	}
 	overflowPanic(t, &t2, DurationIsNegative(d))
 	return &t2
 }
